@@ -70,8 +70,15 @@ impl CellBuffer {
     }
 
     pub fn bounds(&self) -> Option<(Cell, Cell)> {
-        let xlimits =
-            self.iter().map(|(cell, _)| cell.x).minmax().into_option();
+        // a double-width char occupies two cells although only the first is in the map
+        let xlimits = self
+            .iter()
+            .flat_map(|(cell, ch)| {
+                let char_cells = ch.width().unwrap_or(1).max(1) as i32;
+                [cell.x, cell.x + char_cells - 1]
+            })
+            .minmax()
+            .into_option();
         let ylimits =
             self.iter().map(|(cell, _)| cell.y).minmax().into_option();
         match (xlimits, ylimits) {
